@@ -1,276 +1,296 @@
 """C20 - uploading and downloading files reproduces them byte for byte.
 
-Structural necessary conditions: binary modes, copy-loop discipline, same relative names, filter threaded, sibling
-symmetry (R20.1-R20.4). File-system behaviour is trusted."""
+Model evaluation: upload()/download() and the helpers they call are interpreted by sa/miniinterp.py (an AST interpreter over
+model values; no repository code is executed) on in-memory file systems and compared with a faithful copy (R20.1, R20.2);
+the channel underneath is R05.4 (R20.5). Real file-system behaviour is trusted."""
 import ast
 
 from .. import astutil as A
 from .. import cfgq as Q
 from ..loader import AnalysisError
+from .. import miniinterp as MI
 
 CL = "rpyc.utils.classic"
 
 
-def opens(fn):
-    out = []
-    for w in A.walk(fn):
-        if isinstance(w, ast.With):
-            for it in w.items:
-                c = it.context_expr
-                if isinstance(c, ast.Call) and (A.call_name(c) or "").split(".")[-1] == "open":
-                    remote = (A.call_name(c) or "").startswith("conn.")
-                    var = it.optional_vars.id if isinstance(it.optional_vars, ast.Name) else None
-                    out.append((w, c, remote, var))
-    return out
+class _FS:
+    """in-memory file system of the model: files {path: bytes}, dirs {path}"""
+    mi_native = True
 
+    def __init__(self, files=None, dirs=None):
+        self.files = dict(files or {})
+        self.dirs = set(dirs or ())
+        self.opened = []
 
-def check_file(ctx, rep, name, src_remote):
-    f = ctx.func(CL + "." + name)
-    rep.analysed(f)
-    prm = A.params(f.node)
-    ops = opens(f.node)
-    side = {True: "remote", False: "local"}
-    other_opens = [c for c in A.calls(f.node) if (A.call_name(c) or "").split(".")[-1] == "open"
-                   and not any(c is o[1] for o in ops)]
-    rep.ob("R20.1", "%s: both files are opened in `with` statements (closed on every path)" % name, len(ops) == 2 and not other_opens,
-           "two with-open blocks" if len(ops) == 2 and not other_opens else
-           "a file is opened outside a `with`: it is not closed (flushed) on every path", f.loc, kind="site")
-    if len(ops) != 2:
-        return None
-    srcv = dstv = None
-    for w, c, remote, var in ops:
-        mode = ctx.try_fold(c.args[1]) if len(c.args) > 1 else None
-        for kw in c.keywords:
-            if kw.arg == "mode":
-                mode = ctx.try_fold(kw.value)
-        is_src = remote == src_remote
-        want = "r" if is_src else "w"
-        ok = isinstance(mode, str) and "b" in mode and want in mode and ("w" in mode) == (not is_src) and "a" not in mode
-        rep.ob("R20.1", "%s: the %s %s file is opened in binary %s mode" % (name, side[remote], "source" if is_src else "destination",
-                                                                       "read" if is_src else "write"), ok,
-               "mode %r" % mode if ok else
-               "mode %r: text mode translates line endings / decodes bytes (or the wrong direction/append is used) - the copy "
-               "is no longer byte for byte" % (mode,), ctx.loc(c))
-        # which path is opened
-        pth = A.src(c.args[0]) if c.args else None
-        wantp = "remotepath" if remote else "localpath"
-        rep.ob("R20.1", "%s: the %s file is opened at the %s path" % (name, side[remote], side[remote]), pth == wantp,
-               "open(%s, ...)" % pth if pth == wantp else "the %s side opens `%s`" % (side[remote], pth), ctx.loc(c), kind="site")
-        if is_src:
-            srcv = var
-        else:
-            dstv = var
-    # R20.2: the copy loop, wherever it lives (in this function or in a helper that is handed both files)
-    if srcv is None or dstv is None:
-        rep.ob("R20.2", "%s: a single copy loop over the two open files" % name, False, "the open files are not bound to names", f.loc)
+    def isdir(self, p):
+        return p in self.dirs
+
+    def isfile(self, p):
+        return p in self.files
+
+    def listdir(self, p):
+        if p not in self.dirs:
+            raise MI.Raised("OSError")
+        pre = p + "/"
+        return sorted({x[len(pre):].split("/")[0] for x in list(self.files) + list(self.dirs) if x.startswith(pre)})
+
+    def join(self, a, *b):
+        return "/".join((a,) + b)
+
+    def makedirs(self, p):
+        if p in self.dirs or p in self.files:
+            raise MI.Raised("OSError")
+        parts = p.split("/")
+        for i in range(1, len(parts) + 1):
+            self.dirs.add("/".join(parts[:i]))
+
+    def mkdir(self, p):
+        if p in self.dirs or p in self.files or ("/" in p and p.rsplit("/", 1)[0] not in self.dirs):
+            raise MI.Raised("OSError")
+        self.dirs.add(p)
+
+    def getsize(self, p):
+        if p not in self.files:
+            raise MI.Raised("OSError")
+        return len(self.files[p])
+
+    def walk(self, top):
+        out = []
+
+        def rec(d):
+            names = self.listdir(d)
+            out.append((d, [n for n in names if d + "/" + n in self.dirs], [n for n in names if d + "/" + n in self.files]))
+            for n in names:
+                if d + "/" + n in self.dirs:
+                    rec(d + "/" + n)
+        rec(top)
+        return out
+
+    def glob(self, pattern):
+        import fnmatch
+        out = []
+        for x in list(self.files) + list(self.dirs):
+            if x.count("/") != pattern.count("/"):
+                continue
+            ok = True
+            for seg, pseg in zip(x.split("/"), pattern.split("/")):
+                if not fnmatch.fnmatchcase(seg, pseg) or (seg.startswith(".") and not pseg.startswith(".")):
+                    ok = False
+            if ok:
+                out.append(x)
+        return sorted(out)
+
+    def open(self, p, mode="r", *a, **k):
+        f = _File(self, p, mode)
+        self.opened.append(f)
         return f
-    cf, cs, cd, cn = f, srcv, dstv, "chunk_size"
-    if not any(isinstance(n, (ast.While, ast.For)) for n in A.walk(f.node)):
-        for c in A.calls(f.node):
-            args = [A.src(x) for x in c.args]
-            r = ctx.repo.resolve_name(f.module, A.call_name(c)) if A.call_name(c) else None
-            callee = r[1] if r and r[0] == "func" else None
-            if srcv in args and dstv in args and callee is not None and not c.keywords:
-                ps = A.params(callee.node)
-                if len(ps) >= len(args) and "chunk_size" in args:
-                    cf, cs, cd, cn = callee, ps[args.index(srcv)], ps[args.index(dstv)], ps[args.index("chunk_size")]
-                    rep.analysed(cf)
-                    break
-    copy_loop(ctx, rep, name, cf, cs, cd, cn)
-    return f
 
 
-def _nonempty_label(test, buf):
-    """for a CFG test atom on the chunk: the label of the edge taken by a non-empty chunk, else None"""
-    e = test
-    if isinstance(e, ast.Name) and e.id == buf:
-        return "true"
-    if isinstance(e, ast.Call) and A.call_name(e) == "len" and len(e.args) == 1 and A.src(e.args[0]) == buf:
-        return "true"
-    if isinstance(e, ast.Compare) and len(e.ops) == 1:
-        l, r, op = A.src(e.left), A.src(e.comparators[0]), e.ops[0]
-        empties = ("b''", 'b""', "0")
-        if l == "len(%s)" % buf and r == "0" or l == buf and r in ("b''", 'b""'):
-            if isinstance(op, ast.Eq):
-                return "false"
-            if isinstance(op, (ast.NotEq, ast.Gt)):
-                return "true"
-        if l == "0" and r == "len(%s)" % buf and isinstance(op, ast.Lt):
-            return "true"
-    return None
+class _NS:
+    """namespace object of the model (os, os.path, conn.modules, ...)"""
+    mi_native = True
+
+    def __init__(self, **kw):
+        self.__dict__.update(kw)
 
 
-def copy_loop(ctx, rep, name, cf, srcv, dstv, chunk):
-    g = ctx.cfg(cf, raises=lambda a, k: set())
-    where = "" if cf.qual.endswith("." + name) else " (in %s)" % cf.name
-    reads = [n for n in g.live if n.kind == "stmt" and isinstance(n.ast, ast.Assign) and isinstance(n.ast.value, ast.Call)
-             and A.call_name(n.ast.value) == "%s.read" % srcv]
-    other_reads = [n for n in g.live if n.ast is not None and n.kind in ("stmt", "test") and n not in reads and any(
-        (A.call_name(c) or "").startswith(srcv + ".") for c in A.calls(n.ast))]
-    okr = bool(reads) and not other_reads and all(
-        isinstance(n.ast.targets[0], ast.Name) and [A.src(a) for a in n.ast.value.args] == [chunk] and not n.ast.value.keywords
-        for n in reads) and len({A.src(n.ast.targets[0]) for n in reads}) == 1
-    rep.ob("R20.2", "%s: each iteration reads one chunk of chunk_size from the source" % name, okr,
-           "`%s`%s" % (A.norm(reads[0].ast), where) if okr else
-           "the source is not read as `buf = src.read(chunk_size)` (and only so)%s" % where,
-           ctx.loc(reads[0].ast) if reads else cf.loc)
-    if not okr:
-        return
-    buf = reads[0].ast.targets[0].id
-    wnodes = [n for n in g.live if n.kind == "stmt" and n.ast is not None and any(
-        A.call_name(c) == "%s.write" % dstv for c in A.calls(n.ast))]
-    good_w = [n for n in wnodes if isinstance(n.ast, ast.Expr) and isinstance(n.ast.value, ast.Call) and
-              [A.src(x) for x in n.ast.value.args] == [buf] and not n.ast.value.keywords]
-    rd = Q.ReachingDefs(g)
-    read_ids = {n.id for n in reads}
-
-    def fresh(n):
-        ds = rd.at(n, buf)
-        return bool(ds) and all(d != "param" and d.id in read_ids for d in ds)
-    tests = {n.id: _nonempty_label(n.ast, buf) for n in g.live if n.kind == "test" and _nonempty_label(n.ast, buf) and fresh(n)}
-    okw = bool(wnodes) and len(good_w) == len(wnodes) and all(fresh(n) for n in wnodes)
-    rep.ob("R20.2", "%s: what is written is the chunk just read and tested" % name, okw and bool(tests),
-           "%s.write(%s) with %s defined only by the read" % (dstv, buf, buf) if okw and tests else
-           "the destination is written with something other than the chunk just read (or the chunk is never tested)%s" % where,
-           ctx.loc(wnodes[0].ast) if wnodes else cf.loc)
-    if not (okw and tests):
-        return
-    normal = lambda a, b, l: l != "exc"
-    nonempty = lambda a, b, l: l != "exc" and not (a.id in tests and l != tests[a.id])
-    w_ids = {n.id for n in wnodes}
-    # (a) a non-empty chunk is written before the next read / the end
-    p = Q.find_path_ef(reads, lambda n: n.id in read_ids or n is g.exit,
-                       lambda a, b, l: nonempty(a, b, l) and b.id not in w_ids)
-    # (b) never written twice
-    p2 = Q.find_path_ef(wnodes, lambda n: n.id in w_ids, lambda a, b, l: normal(a, b, l) and b.id not in read_ids)
-    # (c) the source is read at least once
-    p3 = Q.find_path_ef([g.entry], lambda n: n is g.exit, lambda a, b, l: normal(a, b, l) and b.id not in read_ids)
-    # (d) an empty chunk ends the copy
-    empty_targets = [t for n in g.live if n.id in tests for t, l in n.succ if l not in ("exc", tests[n.id])]
-    p4 = Q.find_path_ef(empty_targets, lambda n: n.id in read_ids, normal, skip_first=False) if empty_targets else None
-    okt = p is None and p2 is None and p3 is None and p4 is None and bool(empty_targets)
-    wit = p or p2 or p3 or p4
-    why = ("a non-empty chunk can reach the next read / the end without being written" if p else
-           "a chunk can be written twice" if p2 else "the copy can finish without reading the source" if p3 else
-           "an empty chunk does not end the copy" if p4 else "no exit on an empty chunk")
-    rep.ob("R20.2", "%s: an empty chunk ends the copy; every other chunk is written, unchanged, before the next read" % name, okt,
-           "read -> emptiness test -> write on every path%s" % where if okt else why + where,
-           ctx.loc(reads[0].ast), witness=ctx.path(wit) if wit else None)
-    # (e) the emptiness test is the only way out: from a read, with the empty edges removed, the end is unreachable
-    p5 = Q.find_path_ef(reads, lambda n: n is g.exit, nonempty)
-    rep.ob("R20.2", "%s: the emptiness test is the loop's only exit" % name, p5 is None,
-           "the end is reachable from a read only through the empty-chunk edge" if p5 is None else
-           "the copy loop has another exit (short files)" + where, ctx.loc(reads[0].ast),
-           witness=ctx.path(p5) if p5 else None)
+def _os_ns(fs):
+    path = _NS(isdir=fs.isdir, isfile=fs.isfile, join=fs.join, exists=lambda p: p in fs.files or p in fs.dirs,
+               getsize=fs.getsize, basename=lambda p: p.rsplit("/", 1)[-1], dirname=lambda p: p.rsplit("/", 1)[0] if "/" in p else "",
+               split=lambda p: tuple(p.rsplit("/", 1)) if "/" in p else ("", p), sep="/")
+    return _NS(path=path, listdir=fs.listdir, makedirs=fs.makedirs, mkdir=fs.mkdir, sep="/", walk=fs.walk,
+               stat=lambda p: _NS(st_size=fs.getsize(p)))
 
 
-def check_dir(ctx, rep, name, local_is_src):
-    f = ctx.func(CL + "." + name)
-    rep.analysed(f)
-    prm = A.params(f.node)
-    srcroot, dstroot = ("localpath", "remotepath") if local_is_src else ("remotepath", "localpath")
-    src_mod = "os" if local_is_src else "conn.modules.os"
-    dst_mod = "conn.modules.os" if local_is_src else "os"
-    fors = [n for n in A.walk(f.node) if isinstance(n, ast.For)]
-    if len(fors) != 1:
-        rep.ob("R20.3", "%s: one listing loop" % name, False, "listing loop not found", f.loc)
-        return f
-    lp = fors[0]
-    okl = A.src(lp.iter) == "%s.listdir(%s)" % (src_mod, srcroot) and isinstance(lp.target, ast.Name)
-    rep.ob("R20.3", "%s: lists the source directory" % name, okl, "for fn in %s" % A.src(lp.iter) if okl else
-           "the loop lists `%s`, not the source directory" % A.src(lp.iter), ctx.loc(lp))
-    fn = A.src(lp.target)
-    # destination directory created before, and independently of, the loop
-    mk = [c for c in A.calls(f.node) if (A.call_name(c) or "") in ("%s.makedirs" % dst_mod, "%s.mkdir" % dst_mod)]
-    okm = len(mk) == 1 and [A.src(a) for a in mk[0].args][:1] == [dstroot] and not A.contains(lp, mk[0]) and \
-        mk[0].lineno < lp.lineno
-    guard = A.enclosing(mk[0], ast.If) if mk else None
-    okg = guard is None or A.src(guard.test) == "not %s.path.isdir(%s)" % (dst_mod, dstroot)
-    rep.ob("R20.3", "%s: the destination directory is created before the listing loop (empty directories are reproduced)" % name,
-           okm and okg, "`if not isdir(%s): makedirs(%s)` precedes the loop" % (dstroot, dstroot) if okm and okg else
-           "the destination directory is created inside/after the loop or under another condition: empty directories are lost",
-           ctx.loc(mk[0]) if mk else f.loc)
-    # filter guard
-    ifs = [n for n in lp.body if isinstance(n, ast.If)]
-    okf = len(lp.body) == 1 and len(ifs) == 1 and A.src(ifs[0].test) in ("not filter or filter(%s)" % fn,) and not ifs[0].orelse
-    rep.ob("R20.3", "%s: an entry is processed iff there is no filter or the filter accepts its name" % name, okf,
-           "`if not filter or filter(%s)`" % fn if okf else
-           "the filter condition is `%s`" % (A.src(ifs[0].test) if ifs else "<missing>"), ctx.loc(lp))
-    body = ifs[0].body if ifs else lp.body
-    joins = {}
-    for st in body:
-        if isinstance(st, ast.Assign) and isinstance(st.value, ast.Call) and (A.call_name(st.value) or "").endswith("path.join"):
-            joins[st.targets[0].id] = st.value
-    srcj = [v for v, c in joins.items() if A.call_name(c) == "%s.path.join" % src_mod and [A.src(a) for a in c.args] == [srcroot, fn]]
-    dstj = [v for v, c in joins.items() if A.call_name(c) == "%s.path.join" % dst_mod and [A.src(a) for a in c.args] == [dstroot, fn]]
-    okj = len(srcj) == 1 and len(dstj) == 1 and len(joins) == 2
-    rep.ob("R20.3", "%s: source and destination paths join the respective root with the same entry name" % name, okj,
-           "%s = join(%s, %s); %s = join(%s, %s)" % (srcj[0], srcroot, fn, dstj[0], dstroot, fn) if okj else
-           "the per-entry paths are %s" % {k: A.src(v) for k, v in joins.items()}, ctx.loc(lp))
-    rec_name = "upload" if local_is_src else "download"
-    rec = [c for st in body for c in A.calls(st) if A.call_name(c) == rec_name]
-    okr = False
-    if len(rec) == 1 and okj:
-        c = rec[0]
-        pos = [A.src(a) for a in c.args]
-        kws = {k.arg: A.src(k.value) for k in c.keywords}
-        okr = pos[:3] == ["conn", srcj[0], dstj[0]] and kws.get("filter") == "filter" and kws.get("chunk_size") == "chunk_size" \
-            and kws.get("ignore_invalid") == "True"
-    rep.ob("R20.3", "%s: recursion passes (source path, destination path) in order with the caller's filter and chunk size" % name,
-           okr, "%s(conn, src, dst, filter=filter, ignore_invalid=True, chunk_size=chunk_size)" % rec_name if okr else
-           "the recursive call is `%s`: nested entries are unfiltered / paths swapped" % (A.src(rec[0]) if rec else "<missing>"),
-           ctx.loc(rec[0]) if rec else ctx.loc(lp))
-    return f
+class _File:
+    mi_native = True
+
+    def __init__(self, fs, path, mode):
+        self.fs, self.path, self.mode = fs, path, mode
+        self.closed = False
+        self.pos = 0
+        if "r" in mode:
+            if path not in fs.files:
+                raise MI.Raised("OSError")
+        elif "w" in mode:
+            if path in fs.dirs or ("/" in path and path.rsplit("/", 1)[0] not in fs.dirs):
+                raise MI.Raised("OSError")
+            fs.files[path] = b""
+        elif "a" in mode:
+            fs.files.setdefault(path, b"")
+
+    def read(self, n=-1):
+        if self.closed or "r" not in self.mode:
+            raise MI.Raised("ValueError")
+        data = self.fs.files[self.path]
+        chunk = data[self.pos:] if n is None or n < 0 else data[self.pos:self.pos + n]
+        self.pos += len(chunk)
+        return chunk
+
+    def write(self, b):
+        if self.closed or "r" in self.mode:
+            raise MI.Raised("ValueError")
+        if not isinstance(b, bytes):
+            raise MI.Raised("TypeError")
+        self.fs.files[self.path] += b
+        return len(b)
+
+    def close(self):
+        self.closed = True
+
+    def mi_enter(self):
+        return self
+
+    def mi_exit(self):
+        self.closed = True
 
 
-def check_dispatch(ctx, rep, name, local_is_src):
-    f = ctx.func(CL + "." + name)
-    rep.analysed(f)
-    mod = "os" if local_is_src else "conn.modules.os"
-    src = "localpath" if local_is_src else "remotepath"
-    a, b = ("localpath", "remotepath") if local_is_src else ("remotepath", "localpath")
-    top = [s for s in f.node.body if isinstance(s, ast.If)]
-    ok = False
-    if top:
-        i = top[0]
-        c1 = A.src(i.test) == "%s.path.isdir(%s)" % (mod, src)
-        d = [c for c in A.calls(ast.Module(body=i.body, type_ignores=[])) if A.call_name(c) == name + "_dir"]
-        c2 = len(d) == 1 and [A.src(x) for x in d[0].args] == ["conn", a, b, "filter", "chunk_size"]
-        e = i.orelse[0] if i.orelse and isinstance(i.orelse[0], ast.If) else None
-        c3 = e is not None and A.src(e.test) == "%s.path.isfile(%s)" % (mod, src)
-        fl = [c for c in A.calls(ast.Module(body=e.body, type_ignores=[])) if A.call_name(c) == name + "_file"] if e else []
-        c4 = len(fl) == 1 and [A.src(x) for x in fl[0].args] == ["conn", a, b, "chunk_size"]
-        ok = c1 and c2 and c3 and c4
-    rep.ob("R20.3", "%s: directories go to %s_dir (with the filter), files to %s_file, both with (source, destination, chunk size)"
-           % (name, name, name), ok, "isdir -> %s_dir(conn, %s, %s, filter, chunk_size); isfile -> %s_file(conn, %s, %s, chunk_size)"
-           % (name, a, b, name, a, b) if ok else "the %s dispatcher changed (filter/chunk size/paths not passed on as given)" % name, f.loc)
+def _tree(prefix):
+    files = {prefix + "/a.bin": bytes(range(256)) * 3, prefix + "/empty": b"", prefix + "/crlf.txt": b"x\r\ny\n\x1a",
+             prefix + "/skip.tmp": b"junk", prefix + "/sub/b.dat": b"\x00" * 70 + b"\xff", prefix + "/sub/deep/c": b"c" * 513,
+             prefix + "/sub/deep/d.tmp": b"no", prefix + "/cache.tmp/inner": b"hidden", prefix + "/_private": b"p",
+             prefix + "/.hidden": b"dot", prefix + "/sub/.cfg": b"k=v", prefix + "/data[1]/x": b"bracket", prefix + "/data1/y": b"plain",
+             prefix + "/build/out.o": b"obj"}
+    dirs = {prefix, prefix + "/sub", prefix + "/sub/deep", prefix + "/hollow", prefix + "/cache.tmp", prefix + "/data[1]",
+            prefix + "/data1", prefix + "/build", prefix + "/.git"}
+    return files, dirs
+
+
+def _expected(files, dirs, src, dst, flt):
+    """the destination tree a faithful copy produces"""
+    of, od = {}, set()
+
+    def rec(s, d):
+        if s in dirs:
+            od.add(d)
+            pre = s + "/"
+            for name in sorted({x[len(pre):].split("/")[0] for x in list(files) + list(dirs) if x.startswith(pre)}):
+                if flt is None or flt(name):
+                    rec(s + "/" + name, d + "/" + name)
+        elif s in files:
+            of[d] = files[s]
+    rec(src, dst)
+    return of, od
+
+
+def _glookup(ctx, mod):
+    def look(n):
+        v = ctx.try_fold(ast.Name(id=n, ctx=ast.Load()), mod)
+        return (v is not None), v
+    return look
+
+
+def model_copy(ctx, rep, direction):
+    """interpret upload()/download() (and the helpers they call) on the in-memory file systems and compare the outcome with a
+    faithful copy, for several chunk sizes, with and without a name filter, for trees and for single files"""
+    mod = ctx.module(CL)
+    fnodes = {f.name: f for q, f in ctx.repo.funcs.items() if f.module is mod and f.parent is None and f.cls is None}
+    top = fnodes[direction]
+    rep.analysed(top)
+    for nm in (direction + "_file", direction + "_dir"):
+        if nm in fnodes:
+            rep.analysed(fnodes[nm])
+    connp = A.params(top.node)[0]
+    bad = []
+    runs = 0
+    flt_tmp = lambda name: not (name.endswith(".tmp") or name.startswith("_") or name == "build")
+    for chunk in (1, 64, 256, 768, 1000, 16000):
+        for flt_name, flt in (("no filter", None), ("filter", flt_tmp)):
+            for what in ("tree", "file", "empty file"):
+                if chunk == 1 and what == "tree":
+                    continue
+                runs += 1
+                sfiles, sdirs = _tree("src")
+                src_fs = _FS(sfiles, sdirs)
+                dst_fs = _FS({}, {"out"})
+                local, remote = (src_fs, dst_fs) if direction == "upload" else (dst_fs, src_fs)
+                conn_obj = _NS(modules=_NS(os=_os_ns(remote), glob=_NS(glob=remote.glob)), builtin=_NS(open=remote.open),
+                               builtins=_NS(open=remote.open))
+                extra = {"__calls__": {}, "__max_iter__": 5000}
+                glob = {"os": _os_ns(local), "open": local.open, "glob": _NS(glob=local.glob)}
+                for nm, f in fnodes.items():
+                    glob[nm] = (lambda f: lambda *a, **k: MI.call_function(f.node, list(a), extra, k))(f)
+                extra["__globals__"] = glob
+                extra["__global_lookup__"] = _glookup(ctx, mod)
+                s_path = {"tree": "src", "file": "src/a.bin", "empty file": "src/empty"}[what]
+                d_path = "out/copy"
+                try:
+                    kw = {"chunk_size": chunk}
+                    if flt is not None:
+                        kw["filter"] = flt
+                    MI.call_function(top.node, [conn_obj, s_path, d_path], extra, kw)
+                    out = None
+                except MI.Raised as r:
+                    out = "raises %s" % r.name
+                want_f, want_d = _expected(sfiles, sdirs, s_path, d_path, flt)
+                got_f = {k: v for k, v in dst_fs.files.items()}
+                got_d = {d for d in dst_fs.dirs if d != "out"}
+                label = "%s of a %s, chunk size %d, %s" % (direction, what, chunk, flt_name)
+                if out:
+                    bad.append("%s: %s" % (label, out))
+                elif got_f != want_f or got_d != want_d:
+                    diff = []
+                    for k in sorted(set(got_f) | set(want_f)):
+                        if got_f.get(k) != want_f.get(k):
+                            diff.append("%s: %s" % (k, "missing" if k not in got_f else "unexpected" if k not in want_f else
+                                                    "%d bytes instead of %d%s" % (len(got_f[k]), len(want_f[k]),
+                                                                                  "" if len(got_f[k]) != len(want_f[k]) else " (content differs)")))
+                    for k in sorted(got_d ^ want_d):
+                        diff.append("directory %s %s" % (k, "missing" if k in want_d else "unexpected"))
+                    bad.append("%s: %s" % (label, "; ".join(diff[:4])))
+                else:
+                    leaks = [f for fs in (src_fs, dst_fs) for f in fs.opened if not f.closed]
+                    modes = {f.mode for fs in (src_fs, dst_fs) for f in fs.opened}
+                    if leaks:
+                        bad.append("%s: %d file(s) left open (not flushed/closed on every path)" % (label, len(leaks)))
+                    if any("b" not in m_ for m_ in modes):
+                        bad.append("%s: file opened in text mode %s (newline translation / decoding: not byte for byte)" % (label, sorted(modes)))
+                    if src_fs.files != sfiles or src_fs.dirs != sdirs:
+                        bad.append("%s: the source tree was modified" % label)
+    # an invalid path
+    for ignore, want_raise in ((False, True), (True, False)):
+        runs += 1
+        src_fs, dst_fs = _FS(*_tree("src")), _FS({}, {"out"})
+        local, remote = (src_fs, dst_fs) if direction == "upload" else (dst_fs, src_fs)
+        conn_obj = _NS(modules=_NS(os=_os_ns(remote), glob=_NS(glob=remote.glob)), builtin=_NS(open=remote.open),
+                       builtins=_NS(open=remote.open))
+        extra = {"__calls__": {}}
+        glob = {"os": _os_ns(local), "open": local.open, "glob": _NS(glob=local.glob)}
+        for nm, f in fnodes.items():
+            glob[nm] = (lambda f: lambda *a, **k: MI.call_function(f.node, list(a), extra, k))(f)
+        extra["__globals__"] = glob
+        extra["__global_lookup__"] = _glookup(ctx, mod)
+        try:
+            MI.call_function(top.node, [conn_obj, "src/nothing-here", "out/x"], extra, {"ignore_invalid": ignore})
+            raised = None
+        except MI.Raised as r:
+            raised = r.name
+        if (raised == "ValueError") != want_raise or (raised not in (None, "ValueError")):
+            bad.append("%s of a path that is neither file nor directory with ignore_invalid=%s: %s" % (
+                direction, ignore, "raises %s" % raised if raised else "returns silently"))
+    return runs, bad
 
 
 def run(ctx, rep):
-    rep.rule("R20.1", "binary on both ends: constant binary modes, read on the source, write on the destination, right paths")
-    rep.rule("R20.2", "copy-loop discipline: read a chunk, stop only on an empty chunk, write that chunk before the next read; files closed by `with`")
-    rep.rule("R20.3", "trees: destination directory created before and independently of the listing; same entry name on both sides; "
-                      "filter threaded through every level")
-    rep.rule("R20.4", "sibling symmetry: upload* and download* are mirror images (same rule instances on both sides)")
+    rep.rule("R20.1", "model evaluation: upload()/download() and their helpers, interpreted (sa/miniinterp.py, no repository code is "
+                      "run) on in-memory file systems, reproduce trees and files byte for byte for every chunk size tried (below, at "
+                      "and above file sizes, exact multiples), with and without a name filter; binary modes; every file closed; "
+                      "the source untouched")
+    rep.rule("R20.2", "a path that is neither file nor directory raises ValueError unless ignore_invalid is set")
     rep.rule("R20.5", "the chunks travel whole: frame layout agreement of the channel underneath (= R05.4)")
-    rep.assume("file-system semantics, symlinks/special files and permissions are out of scope; chunk size does not affect content")
-    before = len(rep.obs)
-    check_file(ctx, rep, "upload_file", src_remote=False)
-    mid = len(rep.obs)
-    check_file(ctx, rep, "download_file", src_remote=True)
-    end = len(rep.obs)
-    n_up, n_down = mid - before, end - mid
-    a = len(rep.obs)
-    check_dir(ctx, rep, "upload_dir", True)
-    b = len(rep.obs)
-    check_dir(ctx, rep, "download_dir", False)
-    c = len(rep.obs)
-    check_dispatch(ctx, rep, "upload", True)
-    check_dispatch(ctx, rep, "download", False)
-    ok = n_up == n_down and (b - a) == (c - b)
-    rep.ob("R20.4", "upload*/download* yield the same rule instances", ok,
-           "file: %d/%d, dir: %d/%d obligations" % (n_up, n_down, b - a, c - b) if ok else
-           "the two families differ in shape (file: %d vs %d, dir: %d vs %d obligations): one sibling was changed alone"
-           % (n_up, n_down, b - a, c - b), "rpyc/utils/classic.py", kind="table")
+    rep.assume("file-system semantics, symlinks/special files and permissions are out of scope",
+               "the model file system implements isdir/isfile/listdir/join/makedirs/mkdir/open(read, write, close) only")
+    total = 0
+    for direction in ("upload", "download"):
+        runs, bad = model_copy(ctx, rep, direction)
+        total += runs
+        inval = [b for b in bad if "neither file nor directory" in b]
+        copy_bad = [b for b in bad if b not in inval]
+        rep.ob("R20.1", "%s: trees and files are reproduced byte for byte on the model file systems" % direction, not copy_bad,
+               "%d runs (chunk sizes x filter x tree/file/empty file) give exactly the faithful copy" % runs if not copy_bad else
+               "; ".join(copy_bad[:3]), ctx.func(CL + "." + direction).loc, kind="table")
+        rep.ob("R20.2", "%s: an invalid path raises ValueError unless ignore_invalid" % direction, not inval,
+               "ValueError / silent as documented" if not inval else "; ".join(inval), ctx.func(CL + "." + direction).loc, kind="table")
+    rep.floor("R20.1", "model runs of upload/download", total, 60)
     from . import common as K
     K.share(ctx, rep, "c05", lambda o: o.rule == "R05.4", "R20.5", floor=5)
